@@ -229,6 +229,9 @@ type Cfg struct {
 	BLS        bool
 	PeersEquiv bool // peers may vote twice per kind and context (C03); C02 prunes these
 	NoGhost    bool // disable the C02 oracle (C03 part 1 runs without it)
+	// Prelude: scripted ops applied at Reset; exploration starts from the state they reach (non-initial
+	// start states: e.g. a previous round that was decided at a round index > 1 and left its records behind).
+	Prelude []string
 }
 
 func (c *Cfg) cert(round uint64) bool { return round > 0 && round%params.ACoCHTFrequency == 0 }
@@ -594,6 +597,21 @@ func (s *Sys) Reset() {
 	s.V = s.newVoter()
 	s.deliverCtx(0)
 	s.posts = nil
+	for _, op := range s.Cfg.Prelude {
+		ok := false
+		for _, e := range s.Enabled() {
+			if e == op {
+				ok = true
+			}
+		}
+		if !ok {
+			panic(fmt.Sprintf("harness: prelude op %q not enabled (enabled: %v)", op, s.Enabled()))
+		}
+		s.Apply(op)
+		if vs := s.Check(); len(vs) > 0 {
+			panic(fmt.Sprintf("harness: prelude op %q violates: %v", op, vs[0].Sig))
+		}
+	}
 }
 
 func (s *Sys) deliverCtx(step uint32) {
